@@ -40,4 +40,7 @@ TEXT.update({
 TEXT["C08"] = {"technique": "Coq proof of the frame property on the node model + differential interleaving / restart / duplicate / reinit / Poll-replay histories",
   "level": "Theorem (frame): handling a board message of round r leaves the dump and signature store of every other round untouched, for every node state and outcome. The 'function of the sub-log' statement is composed by the harness: interleavings with another round, restarts, duplicates, junk, reinit variants and a replay through the real Poll loop all reach the reference projection, and every history agrees with the model.",
   "note": "partial: locality (the outcome for round r depends only on r's part of the state) is not yet a theorem. The reinit_dkg exception of the pinned tree was repaired (fix 6265d18)." + COMMON_NOTE}
+TEXT["C16"] = {"technique": "Coq proof (invariant over all schedules of the regenerated step list of send; sequential and read theorems) + concurrent goroutine/process runs on the real file storage",
+  "level": "Theorems: for ANY number of writers and ANY schedule of the atomic steps Lock;Seek;Count;Marshal;Write;Unlock (the list regenerated from fileStorage.go and proved equal to this one), offsets are positions without gaps or repeats and earlier entries never change; sequential sends keep order and appear once; reading from k returns exactly positions k.. minus ignored entries - for every line length up to the reader's limit (both scanner limits regenerated and proved equal to 1 MiB after fix 8ab9ea1). Tied by concurrent runs (goroutines and OS processes) whose observed order is replayed on the model.",
+  "note": "flock and O_APPEND atomicity are the operating system's (partial: not modelled below the call level)." + COMMON_NOTE}
 NOT_APPLICABLE = {}
